@@ -77,7 +77,12 @@ Taken(form, src, srcname, all, own) ==
 
 \* a second library the client may star-import BEFORE the outer module: its beta is shadowed whenever outer exports one
 ExtraNS == {<<"beta", Def("extra", "beta")>>, <<"zeta", Def("extra", "zeta")>>}
-MidNS(c) == Bind(Taken(c.mid, BaseNS, "base", c.ball, "mid"), {<<"gamma", Def("mid", "gamma")>>})
+\* mid form "fromstar": `from base import alpha, beta, Path` FOLLOWED by `from extra import *`: the later statement wins
+\* for every name both provide (beta), and adds what only it has (zeta)
+MidTaken(c) == IF c.mid = "fromstar"
+                 THEN Bind(Taken("from", BaseNS, "base", c.ball, "mid"), Star(ExtraNS, "none"))
+                 ELSE Taken(c.mid, BaseNS, "base", c.ball, "mid")
+MidNS(c) == Bind(MidTaken(c), {<<"gamma", Def("mid", "gamma")>>})
 TopNS(c) == Bind(Taken(c.top, MidNS(c), "mid", "none", "top"), {<<"delta", Def("top", "delta")>>})
 OuterNS(c) == IF c.top = "absent" THEN MidNS(c) ELSE TopNS(c)
 OuterName(c) == IF c.top = "absent" THEN "mid" ELSE "top"
